@@ -29,6 +29,8 @@ def leaf_roles(prog):
             out.add(k)                                   # constructors of the method / engine structs
         elif f.get("inputs") == ["char"] and f.get("output") == "bool":
             out.add(k)                                   # character-class predicates
+        elif f.get("inputs") == ["char"] and f.get("output") in ("std::option::Option<char>", "char"):
+            out.add(k)                                   # character → character tables (evaluated as finite maps, never spliced in)
         elif f.get("no_mangle"):
             out.add(k)
         elif len(f.get("inputs") or []) == 1 and (f["inputs"][0].startswith("utility::SplittedString")) and (f.get("output") or "").startswith("utility::SplittedString"):
